@@ -142,6 +142,10 @@ Lemma opnd_bits_index_set m r n zs : sget r m = Some n ->
   if forallb (in_size n) zs then Some (map (fun i => (r, i)) zs) else None.
 Proof. intros H. cbn [opnd_bits]. now rewrite H, lit_ints_lits. Qed.
 
+Lemma opnd_bits_closed_index m r n e v i : sget r m = Some n -> ceval e = Some v -> idx_of v = Some i ->
+  opnd_bits m (QIdx r [IdxList [IExpr e]]) = if in_size n i then Some [(r, i)] else None.
+Proof. intros H Hv Hi. cbn [opnd_bits]. now rewrite H, Hv, Hi. Qed.
+
 Lemma opnd_bits_slice m r n a b st bits : sget r m = Some n ->
   opnd_bits m (QIdx r [IdxList [IRange (Some (ELit (VInt a))) (Some (ELit (VInt b))) (Some (ELit (VInt st)))]]) = Some bits ->
   (0 <= a < n /\ 0 <= b - 1 < n) /\
